@@ -165,6 +165,10 @@ class Report:
             self.violations.extend(r.get("violations", []))
             self.errors.extend(r.get("errors", []))
             self.validated += r.get("validated", 0)
+            for note in r.get("notes", []) or []:
+                note = note if note.startswith("DEGRADED") else "DEGRADED: " + note
+                if note not in self.assumptions:
+                    self.assumptions.append(note)
             self.configs += 1
             if layer:
                 L = self.layers.setdefault(layer, dict(configs=0, paths=0, obligations=0, discharged=0, queries=0, solver_s=0.0, wall_s=0.0))
@@ -255,6 +259,9 @@ def finish(rep):
         print(f"  obligation={v['label']} signature={v['signature']} observed={json.dumps(v['observed'])[:400]}")
         out_viol.append(dict(kind="violation", signature=v["signature"], label=v["label"], inputs=v["inputs"], observed=v["observed"], replay=path))
         code = 1
+    for a in rep.assumptions:
+        if str(a).startswith("DEGRADED"):
+            print(f"NOTE: property={ctx.pid} {a}"[:400])
     if rep.errors:
         for e in rep.errors[:4]:
             print("ENGINE-ERROR:", str(e)[:700], file=sys.stderr)
